@@ -397,6 +397,26 @@ pub fn main_run(args: &[String]) -> i32 {
             }
         }
     }
+    // thorough tier: the Miri stage (preemption at every memory access, not only at yield points)
+    let mut miri_json = json!({"status": "not part of this tier"});
+    if tier == "thorough" && matches!(prop.as_str(), "C08" | "C10" | "C12" | "C13") && exit == 0 {
+        let st = run_miri_stage(&prop, seed, 16, 12);
+        println!("miri stage: {} - {} scenario executions over {} interpreter seeds in {:.0}s, {} violation(s)", st.status, st.executions, st.seeds, st.wall_s, st.violations.len());
+        miri_json = json!({"status": st.status, "scenario_executions": st.executions, "interpreter_seeds": st.seeds, "wall_s": st.wall_s, "violations": st.violations.len(),
+            "flags": miri_flags(0), "note": "free-running mode: the baton scheduler is off, Miri decides the interleaving and may preempt at every basic block; same oracles"});
+        if let Some((k, batch, run, text)) = st.violations.first().cloned() {
+            total.violations += st.violations.len() as u64;
+            let mut scn = if batch.is_empty() { props::generate(&prop, seed, props::batches(&prop, "quick")[0].0, 0) } else { props::generate(&prop, seed, &batch, run) };
+            scn.sched.strategy = crate::spec::Strategy::Free;
+            scn.knobs.push(("miri_seed".into(), k as i64));
+            let rf = ReplayFile { property: prop.clone(), clause: "miri-stage".into(), key: format!("miri-seed-{k}"), detail: text.clone(), minimised: false, original_ops: scn.n_ops(), shrink_evaluations: 0, scenario: scn };
+            let path = write_replay(&rf, &format!("{prop}-seed{seed}-miri{k}-{batch}-run{run}.json"));
+            println!("violation found by the Miri stage: {text}");
+            println!("VIOLATION property={prop} replay={}", path.display());
+            replay_path = Some(path);
+            exit = 1;
+        }
+    }
     // warn about probes stuck at zero
     for (k, c) in &total.probes {
         if *c == 0 {
@@ -431,6 +451,7 @@ pub fn main_run(args: &[String]) -> i32 {
             "known_findings_reproduced": total.known_hits.iter().map(|(i, c)| (known.findings[*i].key.clone(), *c)).collect::<BTreeMap<_, _>>(),
             "components": crate::evidence::components(&prop),
             "replay": replay_path.as_ref().map(|p| p.display().to_string()),
+            "miri_stage": miri_json,
         },
         "assumptions": crate::evidence::assumptions(&prop),
         "wall_s": wall,
@@ -459,7 +480,8 @@ pub fn main_replay(args: &[String]) -> i32 {
     if let Some(code) = crate::special::replay_special(&rf) {
         return code;
     }
-    let checked = props::check(&rf.scenario);
+    let under_miri_wanted = rf.scenario.knob("miri_seed").is_some();
+    let checked = if under_miri_wanted { props::check_in_process(&rf.scenario) } else { props::check(&rf.scenario) };
     if let Some(e) = checked.harness_error {
         println!("HARNESS-ERROR {e}");
         return 2;
@@ -469,7 +491,7 @@ pub fn main_replay(args: &[String]) -> i32 {
     let mut code = 0;
     for v in &checked.violations {
         println!("violation: property {} clause {} key {}: {}", v.prop, v.clause, v.key, v.detail);
-        if v.prop == rf.property && v.clause == rf.clause {
+        if v.prop == rf.property && (v.clause == rf.clause || rf.clause == "miri-stage") {
             code = 1;
         }
     }
@@ -536,4 +558,118 @@ pub fn main_fingerprint(args: &[String]) -> i32 {
         }
     }
     0
+}
+
+/// Miri stage: a sample of scenarios in free-running mode inside one process (no children, no
+/// files): the interpreter owns the schedule and may preempt at every memory access.
+pub fn main_miri_stage(args: &[String]) -> i32 {
+    std::panic::set_hook(Box::new(|_| {}));
+    let prop = arg(args, "--prop").expect("--prop");
+    let seed: u64 = arg(args, "--seed").and_then(|s| s.parse().ok()).unwrap_or(1);
+    let from: u64 = arg(args, "--from").and_then(|s| s.parse().ok()).unwrap_or(0);
+    let runs: u64 = arg(args, "--runs").and_then(|s| s.parse().ok()).unwrap_or(4);
+    let mut done = 0u64;
+    let mut violations = 0u64;
+    for (batch, _) in props::batches(prop, "quick") {
+        for run in from..from + runs {
+            let mut scn = props::generate(prop, seed, batch, run);
+            if scn.knob("isolated").is_some() || scn.threads.len() < 2 {
+                continue;
+            }
+            scn.sched.strategy = crate::spec::Strategy::Free;
+            let c = props::check_in_process(&scn);
+            done += 1;
+            if let Some(e) = c.harness_error {
+                println!("MIRI-STAGE harness error batch {batch} run {run}: {e}");
+                return 2;
+            }
+            for v in c.violations {
+                violations += 1;
+                println!("MIRI-STAGE-VIOLATION property={} batch={batch} run={run} clause={} {}", v.prop, v.clause, v.detail);
+            }
+        }
+    }
+    println!("MIRI-STAGE property={prop} scenarios={done} violations={violations}");
+    if violations > 0 {
+        1
+    } else {
+        0
+    }
+}
+
+pub struct MiriStage {
+    pub status: String,
+    pub executions: u64,
+    pub seeds: u64,
+    pub wall_s: f64,
+    /// (miri seed, batch, run, text)
+    pub violations: Vec<(u64, String, u64, String)>,
+}
+
+fn miri_flags(seed: u64) -> String {
+    format!("-Zmiri-disable-isolation -Zmiri-preemption-rate=0.2 -Zmiri-seed={seed}")
+}
+
+/// Thorough tier, second scheduler: the same scenarios in free-running mode under Miri, one
+/// `cargo miri run` per interpreter seed, all seeds in parallel.
+pub fn run_miri_stage(prop: &str, seed: u64, n_seeds: u64, runs: u64) -> MiriStage {
+    let start = Instant::now();
+    let dir = root().join("sim");
+    let target = dir.join("target-miri");
+    // build once (also tells us whether Miri is usable here)
+    let probe = Command::new("cargo")
+        .args(["+nightly", "miri", "run", "--offline", "--", "miri-stage", "--prop", prop, "--runs", "0"])
+        .current_dir(&dir)
+        .env("CARGO_TARGET_DIR", &target)
+        .env("MIRIFLAGS", miri_flags(0))
+        .env("RUSTFLAGS", "--cfg unimock_verif")
+        .stdout(Stdio::piped())
+        .stderr(Stdio::piped())
+        .output();
+    match probe {
+        Ok(o) if o.status.success() => {}
+        Ok(o) => {
+            let err = String::from_utf8_lossy(&o.stderr);
+            return MiriStage { status: format!("skipped: cargo miri failed: {}", err.lines().rev().take(3).collect::<Vec<_>>().join(" | ")), executions: 0, seeds: 0, wall_s: 0.0, violations: vec![] };
+        }
+        Err(e) => return MiriStage { status: format!("skipped: cannot run cargo miri: {e}"), executions: 0, seeds: 0, wall_s: 0.0, violations: vec![] },
+    }
+    let mut children = vec![];
+    for k in 0..n_seeds {
+        let child = Command::new("cargo")
+            .args(["+nightly", "miri", "run", "--offline", "--", "miri-stage", "--prop", prop, "--seed", &seed.to_string(), "--from", &(k * runs).to_string(), "--runs", &runs.to_string()])
+            .current_dir(&dir)
+            .env("CARGO_TARGET_DIR", &target)
+            .env("MIRIFLAGS", miri_flags(k))
+            .env("RUSTFLAGS", "--cfg unimock_verif")
+            .stdout(Stdio::piped())
+            .stderr(Stdio::null())
+            .spawn();
+        if let Ok(c) = child {
+            children.push((k, c));
+        }
+    }
+    let mut stage = MiriStage { status: "ran".into(), executions: 0, seeds: children.len() as u64, wall_s: 0.0, violations: vec![] };
+    for (k, c) in children {
+        if let Ok(out) = c.wait_with_output() {
+            for line in String::from_utf8_lossy(&out.stdout).lines() {
+                if let Some(rest) = line.strip_prefix("MIRI-STAGE-VIOLATION ") {
+                    let get = |key: &str| rest.split_whitespace().find_map(|w| w.strip_prefix(key)).unwrap_or("").to_string();
+                    stage.violations.push((k, get("batch="), get("run=").parse().unwrap_or(0), rest.to_string()));
+                } else if let Some(rest) = line.strip_prefix("MIRI-STAGE property=") {
+                    if let Some(n) = rest.split_whitespace().find_map(|w| w.strip_prefix("scenarios=")) {
+                        stage.executions += n.parse::<u64>().unwrap_or(0);
+                    }
+                } else if line.starts_with("MIRI-STAGE harness error") {
+                    stage.status = format!("harness error under Miri (seed {k}): {line}");
+                }
+            }
+            if !out.status.success() && stage.violations.iter().all(|v| v.0 != k) && stage.status == "ran" {
+                stage.status = format!("interpreter seed {k} ended with {} (data race or UB reported by Miri, or a crash): treated as a violation", out.status);
+                stage.violations.push((k, String::new(), 0, format!("Miri seed {k}: the interpreter aborted the run ({})", out.status)));
+            }
+        }
+    }
+    stage.wall_s = start.elapsed().as_secs_f64();
+    stage
 }
